@@ -405,6 +405,9 @@ def run(ck):
         if "obs" in r:
             cov["samples"].append({"texts": c.texts, "origin": c.origin,
                                    "observed": {k: r["obs"].get(k) for k in ("code", "cls", "file", "line")}})
+    # the parser itself (token list -> reductions): LALR tables validated, driver modelled (tools/lrstage.py)
+    import lrstage
+    lrstage.lr_stage(ck, "C08_lr.v", lrstage.QUICK, lrstage.THOROUGH, "lr")
 
 
 def _hist(results):
